@@ -25,6 +25,9 @@ FS_PATH_SINKS.update({
 })
 
 ROOT, SAFE, TAINT, OTHER = 'ROOT', 'SAFE', 'TAINT', 'OTHER'
+# a path obtained with parent() / with_file_name() / with_extension(): for the served directory itself (request path "", ".")
+# these name its parent or a sibling of it - outside the tree
+SIBLING = 'SIBLING'
 
 
 class Hub:
@@ -38,6 +41,9 @@ class Hub:
         import flow as _flow
         self.ip = _flow.Interproc(F, opaque={SAFE_JOIN, TMP_OF, 'wire::read_frame', 'serve::current_hash', 'meta::fingerprint_path',
                                               'meta::discover_local_fingerprints', 'transfer::discover_local_files'})
+        # for labelling every crate-local call stays visible (judged from its body by helper_return_label: summaries by
+        # provenance alone would carry taint through sanitising helpers such as a hex formatter)
+        self.ip_lab = _flow.Interproc(F, opaque=set(F.bodies.keys()))
         self._plabel = {}
         self._busy = set()
         # held regions: closures passed to with_commit_lock
@@ -70,7 +76,7 @@ class Hub:
         if _seen is None:
             _seen = set()
         self._seen = _seen
-        for o in fl.origins(op, interproc=self.ip, mut_calls=True):
+        for o in fl.origins(op, interproc=self.ip_lab, mut_calls=True):
             k = (body.path, o)
             if k in _seen:
                 continue
@@ -136,11 +142,16 @@ class Hub:
                     out |= self.label_operand(body, a, depth + 1, self._seen)
                 return out
             if c in (TMP_OF, 'std::path::Path::join', 'std::path::Path::parent', 'std::path::Path::with_extension',
-                     'std::path::Path::with_file_name', 'std::path::PathBuf::from', 'std::path::Path::strip_prefix'):
+                     'std::path::Path::with_file_name', 'std::path::PathBuf::from', 'std::path::Path::strip_prefix',
+                     'std::path::Path::file_stem', 'std::path::Path::file_name', 'std::path::Path::extension', 'std::ffi::OsStr::to_string_lossy',
+                     'std::ffi::OsStr::to_str', 'std::path::Path::to_string_lossy', 'std::path::Path::to_str', 'std::path::Path::display',
+                     'std::option::Option::<T>::unwrap_or_default', 'std::borrow::Cow::<\'_, B>::into_owned', 'std::string::ToString::to_string'):
                 t = body.blocks[o.bb]['term']
                 out = set()
                 for a in t['args']:
                     out |= self.label_operand(body, a, depth + 1, self._seen)
+                if c in ('std::path::Path::parent', 'std::path::Path::with_extension', 'std::path::Path::with_file_name'):
+                    out.add(SIBLING)
                 return out
             if c in ('std::boxed::Box::<T>::new_uninit', 'std::vec::Vec::<T>::new'):
                 return set()
@@ -156,7 +167,11 @@ class Hub:
                     out |= self.label_operand(body, a, depth + 1, self._seen)
                 return out
             if c in self.F.bodies:
-                # crate-local function result that the interproc summary could not see through
+                # crate-local helper (a name-building function extracted by a refactor): judged from its own body, its
+                # parameters labelled from its call sites in the serve graph
+                lab = self.helper_return_label(c, depth)
+                if lab is not None:
+                    return lab
                 return {OTHER}
             return {OTHER}
         if o.kind == 'mutcall':
